@@ -14,7 +14,9 @@ def cfg(name, comment, clients, workers, msgs, pings, hb, reply, ext, dev="{}", 
     s += "SPECIFICATION Spec\n" if live else "INIT Init\nNEXT Next\n"
     if sym and not live:
         s += "SYMMETRY Sym\n"
-    s += "VIEW MCView\nINVARIANTS %s\n" % inv
+    if not live:
+        s += "VIEW MCView\n"
+    s += "INVARIANTS %s\n" % inv
     if live:
         s += "PROPERTY ShutdownEndsRun\n"
     s += "CHECK_DEADLOCK FALSE\n"
@@ -24,7 +26,7 @@ def cfg(name, comment, clients, workers, msgs, pings, hb, reply, ext, dev="{}", 
 # quick
 cfg("quick", "quick: one client, pool of 2, heartbeat on, echo replies, external broadcast; repaired pool (Dev = {}): every invariant and the liveness ShutdownEndsRun",
     "CS1", "WS2", 1, 0, "TRUE", "ReplyUni", "ExtBc", live=True)
-cfg("quick2", "quick: two clients x 1 message, pool of 2, repaired pool: every invariant",
+cfg("t_quick2", "thorough: two clients x 1 message, pool of 2, repaired pool: every invariant",
     "CS2", "WS2", 1, 0, "FALSE", "ReplyNone", "ExtNone")
 cfg("aswritten_n1", "quick: the pool as written with ONE worker, broadcast replies: the invocation-level properties hold as well",
     "CS2", "WS1", 1, 0, "FALSE", "ReplyBc", "ExtNone", dev=II)
